@@ -409,3 +409,26 @@ def nesting(t, u, seen=0) -> int:
 
 def def_nesting(d, u) -> int:
     return 1 + (0 if d["sealed"] else 1) + max([0] + [nesting(f["type"], u) for f in d["fields"] if "type" in f])
+
+
+def copies(objs, rng=None, which=None):
+    """
+    The same model objects after the ways a program hands them on: a pickle round trip of the whole list (references among
+    the definitions are kept shared, as in a cache file), one object at a time, an older pickle protocol, copy.deepcopy and
+    copy.copy. Yields (label, list of copies): every statement about a model object holds for its copies as well.
+    """
+    import copy
+    import pickle
+
+    forms = {
+        "pickled": lambda: pickle.loads(pickle.dumps(list(objs))),
+        "pickled-proto2": lambda: pickle.loads(pickle.dumps(list(objs), protocol=2)),
+        "pickled-one-by-one": lambda: [pickle.loads(pickle.dumps(o)) for o in objs],
+        "deep-copied": lambda: copy.deepcopy(list(objs)),
+        "copied": lambda: [copy.copy(o) for o in objs],
+    }
+    names = list(forms) if which is None else list(which)
+    if rng is not None and which is None:
+        names = rng.sample(names, 2)
+    for n in names:
+        yield n, forms[n]()
